@@ -145,6 +145,53 @@ func c13List(tier string) []c13Case {
 			}
 		}
 	}
+	// part 2b: argument LENGTHS and COUNTS. Replies that quote client input (unknown command, unknown
+	// subcommand, wrong arity, syntax errors) are built with length arithmetic: every total length of the
+	// quoted arguments from 0 to 300 bytes, as one long argument plus a short one, as many short ones, and
+	// as a few medium ones; the same for a known command with a wrong option, inside MULTI, and for names
+	for _, head := range [][]string{{"NOSUCHCMD"}, {"SETT"}, {"CLIENT", "NOSUCHSUB"}, {"SET", "ks"}, {"GET"}, {"HSET", "kh"}, {"COMMAND", "INFO"}, {"OBJECT", "NOSUCH"}, {"CONFIG", "GET"}} {
+		for l := 0; l <= 300; l++ {
+			long := strings.Repeat("a", l)
+			out = append(out, c13Case{args: append(append([]string{}, head...), long)}, c13Case{args: append(append([]string{}, head...), long, "x")})
+			if l%7 == 0 {
+				out = append(out, c13Case{args: append(append([]string{}, head...), long, "EX", "10")})
+			}
+		}
+		for n := 2; n <= 70; n++ {
+			for _, w := range []int{0, 1, 2, 10} {
+				if w > 2 && n > 30 {
+					continue
+				}
+				a := append([]string{}, head...)
+				for i := 0; i < n; i++ {
+					a = append(a, strings.Repeat("b", w))
+				}
+				out = append(out, c13Case{args: a})
+			}
+		}
+		for _, w := range []int{38, 59, 60, 61, 62, 63, 64, 127, 128, 129} {
+			for n := 2; n <= 4; n++ {
+				a := append([]string{}, head...)
+				for i := 0; i < n; i++ {
+					a = append(a, strings.Repeat("c", w))
+				}
+				out = append(out, c13Case{args: a})
+			}
+		}
+	}
+	for l := 1; l <= 300; l++ {
+		out = append(out, c13Case{args: []string{strings.Repeat("N", l)}}, c13Case{args: []string{strings.Repeat("N", l), "arg"}})
+	}
+	// part 2c: DUMP payloads. What DUMP produces for a key of each type is fed to RESTORE - as it is, and
+	// with its length field, type byte, version byte or size changed and the checksum made right again
+	// (the payload is made at run time: "$DUMP:<variant>:<key>"); the tour of the key space afterwards
+	// reads whatever RESTORE created
+	for _, k := range []string{"ks", "kl", "kh", "kz", "ke", "kn", "kx"} {
+		for _, variant := range []string{"asis", "len+1", "len+1000", "len=0", "len=max", "type=list", "type=hash", "type=set", "type=0", "type=ff", "version", "short", "long", "nosum"} {
+			p := "$DUMP:" + variant + ":" + k
+			out = append(out, c13Case{args: []string{"RESTORE", "restored", "0", p}}, c13Case{args: []string{"RESTORE", "ks", "0", p, "REPLACE"}}, c13Case{args: []string{"RESTORE", "kl", "1000", p, "REPLACE", "ABSTTL"}})
+		}
+	}
 	// part 3: every template of the command matrix (each key type as target) and of the option
 	// templates below, with each argument position replaced by each boundary value
 	seen := map[string]bool{}
@@ -290,8 +337,9 @@ func runC13(cs c13Case) (cr caseResult) {
 		verifrt.Advance(5 * 1000000) // 5 ms: kx is now expired but still stored
 		cl := vi.NewClient()
 		other := vi.NewClient()
+		args := c13Payloads(cs.args, fx)
 		verifrt.GoNamed("cmd", func() {
-			reply = cl.Do(cs.args...)
+			reply = cl.Do(args...)
 			done = true
 		})
 		verifrt.AwaitQuiescence()
@@ -443,4 +491,60 @@ func c13Tour(cl *redisemu.VClient, step *string) (bad string) {
 	}
 	*step = ""
 	return
+}
+
+// c13Payloads replaces "$DUMP:<variant>:<key>" arguments by a payload derived from what DUMP says
+// about the key right now.
+func c13Payloads(args []string, fx *redisemu.VClient) []string {
+	out := append([]string{}, args...)
+	for i, a := range out {
+		if !strings.HasPrefix(a, "$DUMP:") {
+			continue
+		}
+		f := strings.SplitN(a, ":", 3)
+		r, err := vm.Parse1(fx.Do("DUMP", f[2]))
+		if err != nil || r.K != vm.KBulk || len(r.S) < 14 {
+			// nothing to dump (missing key): a hand-made string payload
+			body := []byte{1, 1, 0, 0, 0, 3, 'h', 'i'}
+			r = vm.Reply{K: vm.KBulk, S: string(append(body, redisemu.VSimpleChecksum(body)...))}
+		}
+		body := []byte(r.S[:len(r.S)-8])
+		resum := true
+		switch f[1] {
+		case "len+1":
+			body[5]++
+		case "len+1000":
+			body[4] += 4
+		case "len=0":
+			body[2], body[3], body[4], body[5] = 0, 0, 0, 0
+		case "len=max":
+			body[2], body[3], body[4], body[5] = 0xff, 0xff, 0xff, 0xff
+		case "type=list":
+			body[1] = 8
+		case "type=hash":
+			body[1] = 2
+		case "type=set":
+			body[1] = 4
+		case "type=0":
+			body[1] = 0
+		case "type=ff":
+			body[1] = 0xff
+		case "version":
+			body[0] = 9
+		case "short":
+			if len(body) > 7 {
+				body = body[:len(body)-1]
+			}
+		case "long":
+			body = append(body, "extra"...)
+		case "nosum":
+			resum = false
+		}
+		if resum {
+			out[i] = string(append(body, redisemu.VSimpleChecksum(body)...))
+		} else {
+			out[i] = string(body)
+		}
+	}
+	return out
 }
